@@ -313,7 +313,9 @@ pub fn run(ctx: &Ctx) -> PropResult {
     let years = year_set(ctx);
     let mut wls: Vec<Workload> = Vec::new();
     let cyc = 146_097i64;
-    let full = !ctx.quick() && ctx.san();
+    // the whole quantifier in every san run (quick included, ≈ 50 s on 16 cores) and in both builds of the thorough tier:
+    // a defect confined to a handful of interior days (a fast path with a mis-set bound) is invisible to any sample
+    let full = ctx.san() || !ctx.quick();
     if full {
         wls.push(sweep("days_all", cal::MIN_DAY, cal::MAX_DAY, 1, false));
     } else {
